@@ -1125,6 +1125,7 @@ func main() {
 	historiesPhase(r)
 	terminationPhase()
 	linkStage()
+	concurrentCompileStage()
 	if n := dirtyHigh.Load(); n > 0 {
 		rep.Note("observed %d i32/f32 results whose uint64 slot had non-zero upper 32 bits (canonicalised; subject of C08, not C12)", n)
 	}
